@@ -51,9 +51,11 @@ def batch(kind, flags, argv, lo, hi, timeout, prop):
     """Run seeds lo..hi of one configuration. Returns dict(result) and optional violation."""
     rc, out, wall = miri(flags + ["-Zmiri-many-seeds=%d..%d" % (lo, hi)], argv, timeout)
     ok = len([l for l in out.splitlines() if l.startswith("E2-OK")])
+    exact = [int(m.group(1)) for m in re.finditer(r"exact_predicate_calls=(\d+)", out)]
     digests = sorted({m.group(1) for m in re.finditer(r"digest=([0-9a-f]+)", out)} | {m.group(1) for m in re.finditer(r"radius_bits=([0-9a-f]+)", out)})
     res = {"mode": kind, "argv": [str(a) for a in argv], "flags": flags, "seeds": [lo, hi], "ok_lines": ok, "wall_s": round(wall, 1),
-           "distinct_result_digests": len(digests), "rc": rc}
+           "distinct_result_digests": len(digests), "rc": rc,
+           "exact_predicate_calls_max_per_execution": max(exact) if exact else 0}
     viol = None
     if rc == -9:
         res["timeout"] = True
@@ -76,8 +78,10 @@ def c09(tier, vseed):
     if quick:
         # two small batches: the plain build, and a masked integrator route with spurious CAS failures in rayon's deques
         plans.append((["-Zmiri-preemption-rate=0.2"], ["c09", vseed, 0, 3, 6, "build"], 0, 5))
+        # (the second input is one on which the exact big-integer predicate decides - the 8 corners of a cube,
+        # every cell active - so that the code behind it runs under the race detector too; E2-OK lines carry the count)
         plans.append((["-Zmiri-preemption-rate=0.05", "-Zmiri-compare-exchange-weak-failure-rate=0.8"],
-                      ["c09", vseed, 1, 2, 5, "face_integrals_sym"], 100, 103))
+                      ["c09", vseed, 1, 2, 8, "build", "3n:lattice/none"], 100, 103))
     else:
         # Miri costs 20-60 s of CPU per seed for 5-8 generators, and `with_faces` (seven parallel
         # sections plus the integrals on the result) ten times that: few seeds for it, more for the rest
@@ -96,7 +100,12 @@ def c09(tier, vseed):
             heavy = op == "with_faces"
             n = 5 if heavy else 5 + (i % 4)
             seeds = max(4, per // 3) if heavy else per
-            plans.append((flags, ["c09", vseed, i, 2 + i % 3, n, op], i * 1000, i * 1000 + seeds))
+            argv = ["c09", vseed, i, 2 + i % 3, n, op]
+            # three of the inputs are ones on which the exact predicate decides (lattices, every cell active)
+            want = {0: ("3n:lattice/none", 8), 3: ("2p:lattice/none", 9), 6: ("3p:centered_lattice/none", 4)}.get(i)
+            if want and not heavy:
+                argv = ["c09", vseed, i, 2 + i % 3, want[1], op, want[0]]
+            plans.append((flags, argv, i * 1000, i * 1000 + seeds))
     results, viols = [], []
     execs = 0
     flagcount = {}
